@@ -206,7 +206,7 @@ func init() {
 			// the same oracle on locations built by the configuration path (location.Reset -> convertConfigs),
 			// with "/" among the prefixes and the request-URIs "*" and "/%61" (the URI is matched as sent)
 			st := c.Stat("converted-get", "enumeration")
-			prefixSets := [][]string{nil, {"/"}, {"/a"}, {"/a", "/"}, {"/", "/a/b"}, {"/b"}}
+			prefixSets := [][]string{nil, {"/"}, {"/a"}, {"/a", "/"}, {"/a/"}, {"/", "/a/b"}, {"//a/b"}, {"/b"}} // (neighbouring sets whose elements concatenate to the same string)
 			var cshapes []c14Loc
 			for _, hs := range append(append([][]string(nil), c14HostSets...), []string{"B.Com"}, []string{"a", "B.Com"}) {
 				for _, ps := range prefixSets {
